@@ -129,6 +129,10 @@ impl Lintable for FunctionBody
 		{
 			statement.lint(linter);
 		}
+		if let Some(return_value) = &self.return_value
+		{
+			return_value.lint(linter);
+		}
 	}
 }
 
